@@ -1003,6 +1003,13 @@ where
             (VariableByteInteger::from_u32(0).unwrap(), Properties::new())
         };
 
+        if topic_name.as_str().is_empty()
+            && !props.iter().any(|p| matches!(p, Property::TopicAlias(_)))
+        {
+            // an empty topic name is only meaningful together with a Topic Alias
+            return Err(MqttError::TopicAliasInvalid);
+        }
+
         let payload_len = data_arc.len() - cursor;
         let payload = if payload_len > 0 {
             ArcPayload::new(data_arc.clone(), cursor, payload_len)
